@@ -929,7 +929,7 @@ func execC02(s *c02Scenario, c *ev.Ctx) {
 
 var propC02 = ev.Prop[c02Scenario]{
 	ID: "C02", Test: "TestC02",
-	Rule: "rapid draws a scheduler world (0-5 nodes with / without zone and rack labels, bound pods some of which carry required anti-affinity, 1-2 pools some of which can label nodes with a rack) and a batch of 1-4 deployments x 1-4 replicas whose template carries 0-2 of {required / preferred pod anti-affinity, required / preferred pod affinity, DoNotSchedule / ScheduleAnyway spread with maxSkew 1-3, minDomains, node inclusion policies} over hostname / zone / rack with self-, deployment-, set- or foreign selectors, optionally pinned to a zone or a zone subset; one REAL Provisioner.Schedule pass runs; " +
+	Rule: "rapid draws a scheduler world (0-5 nodes with / without zone and rack labels, bound pods some of which carry required anti-affinity, 1-2 pools some of which can label nodes with a rack) and a batch of 1-4 deployments x 1-4 replicas whose template carries 0-2 of {required / preferred pod anti-affinity, required / preferred pod affinity, DoNotSchedule / ScheduleAnyway spread with maxSkew 1-3, minDomains, node inclusion policies} over hostname / zone / rack with self-, deployment-, set- or foreign selectors, optionally pinned to a zone or a zone subset, preferring a zone, or with two OR-ed required zone terms; one REAL Provisioner.Schedule pass runs; " +
 		"oracle on the END STATE, where every pod has the set of domains its node may end up with (node label; for a NodeClaim the zones an available compatible offering of its instance types can launch in, its own hostname, the values of its requirement for user keys): (1) for every required anti-affinity term of any pod (placed or running) and every other pod it selects, the two domain sets are disjoint; (2) every placed pod with a required affinity term has, for EVERY domain it may end up in, a selected pod on the same node or with exactly that domain, or it selects itself and no running pod / lower-numbered replica it selects sits in another domain its own node requirements admit; (3) for a DoNotSchedule self-selecting spread whose selector only matches replicas of the same deployment in the batch: pods certainly in the domain minus an upper bound of the minimum over certainly eligible domains <= maxSkew; " +
 		"non-trivial = at least two placed pods are governed by one shared constraint, or one was rejected by a topology constraint while another was placed",
 	Assumptions: []string{"the commit-order trace hook (H1) of the design is not used: the spread and bootstrap rules are applied in their order-free, lenient readings (they can miss a violation, never raise a false alarm)", "all pods live in one namespace", "minDomains is judged only where it certainly applies: under nodeAffinityPolicy Honor, when the pod's own affinity admits fewer values of the key than minDomains (the minimum then counts as 0)"},
